@@ -49,6 +49,7 @@ def run(chk, prog):
         ok = any(is_call(o, "tokio::task::blocking::spawn_blocking") or is_call(o, *FS_TEMP_NEW) for o in deep)
         chk.require(ok, "R1", f, "writes-go-to-temp-file", "target bytes are written to a file that is not the "
                     "temporary file", ctx.site(bb))
+    async_write_flush_rule(chk, ctx, "R2", [bb for bb, _ in persists], "persist")
     # ---- R2: only a stream that ended without error is renamed into place
     reads = ctx.calls(READ)
     nexts = [(bb, t) for bb, t in ctx.calls("futures_util::stream::stream::StreamExt::next")
